@@ -81,6 +81,8 @@ impl CompiledDfa {
         self.next_states.clear();
         let mut match_start = None;
         let mut match_end = None;
+        // The end of the match plus the length of its lookahead, used to compare candidates.
+        let mut match_extent = 0;
         let mut match_terminal_id = None;
         for (index, c) in char_indices {
             if match_start.is_none() {
@@ -90,9 +92,6 @@ impl CompiledDfa {
             }
 
             for state in self.current_states.iter() {
-                if match_end.is_none() && self.end_states[*state].0 {
-                    match_end = Some(index);
-                }
                 for (cc, next) in &self.states[*state].transitions {
                     if match_char_class(*cc, c) {
                         if !self.next_states.contains(next) {
@@ -127,30 +126,24 @@ impl CompiledDfa {
                                     }
                                 }
                             }
-                            // Update the match end and terminal id if the match is longer or the
-                            // terminal id is lower.
-                            if let Some(match_end_index) = match_end.as_ref() {
-                                match (index + c.len_utf8()).cmp(&(match_end_index + lookahead_len))
-                                {
-                                    std::cmp::Ordering::Greater => {
-                                        match_end = Some(index + c.len_utf8());
-                                        match_terminal_id = Some(self.end_states[*next].1);
-                                    }
+                            // Update the match if its extent (match plus lookahead) is longer
+                            // or the extent is equal and the terminal has a higher priority.
+                            let end = index + c.len_utf8();
+                            let extent = end + lookahead_len;
+                            let better = match match_terminal_id {
+                                None => true,
+                                Some(terminal_id) => match extent.cmp(&match_extent) {
+                                    std::cmp::Ordering::Greater => true,
                                     std::cmp::Ordering::Equal => {
-                                        let terminal_id =
-                                            self.priority_of(self.end_states[*next].1);
-                                        if terminal_id
-                                            < self.priority_of(match_terminal_id.unwrap())
-                                        {
-                                            match_terminal_id = Some(self.end_states[*next].1);
-                                        }
+                                        self.priority_of(self.end_states[*next].1)
+                                            < self.priority_of(terminal_id)
                                     }
-                                    std::cmp::Ordering::Less => {
-                                        match_terminal_id = Some(self.end_states[*next].1);
-                                    }
-                                }
-                            } else {
-                                match_end = Some(index + c.len_utf8());
+                                    std::cmp::Ordering::Less => false,
+                                },
+                            };
+                            if better {
+                                match_end = Some(end);
+                                match_extent = extent;
                                 match_terminal_id = Some(self.end_states[*next].1);
                             }
                         }
